@@ -131,7 +131,7 @@ Theorem reroot_midpoint_missing_length t :
 Proof.
   intros Hwf Hd Hi (x & Hx & Hn).
   destruct (unroot_stage t Hwf Hd Hi) as [W1 [D1 _]].
-  unfold reroot_midpoint. cbv zeta.
+  rewrite (reroot_midpoint_gen_eq t D1). unfold reroot_midpoint_gen.
   set (t1 := unroot t) in *.
   set (f := fun (st : res (mp_state * Q)) (pn : list nat * utree) => _).
   assert (FE : forall l m, fold_left f l (Err m) = Err m) by (induction l; simpl; auto).
@@ -170,7 +170,7 @@ Theorem reroot_midpoint_all_zero t :
 Proof.
   intros Hwf Hd Hi Hz.
   destruct (unroot_stage t Hwf Hd Hi) as [W1 [D1 _]].
-  unfold reroot_midpoint. cbv zeta.
+  rewrite (reroot_midpoint_gen_eq t D1). unfold reroot_midpoint_gen.
   set (t1 := unroot t) in *.
   set (f := fun (st : res (mp_state * Q)) (pn : list nat * utree) => _).
   assert (Step : forall pn, In pn (tip_paths t1) -> f (Ok (MPNone, 0%Q)) pn = Ok (MPNone, 0%Q)).
